@@ -319,3 +319,63 @@ def check_references_complete(c: Check, rule: str, prefixes=('exactly_lib.impls'
                              cls.loc())
     c.floor(rule, 'classes whose reported references are checked', n, floor)
     return n
+
+
+# ------------------------------------------------------------------ FOLD: boolean quantifier / combinator shapes
+
+def check_bool_fold(c: Check, rule: str, fd: FuncDef, is_elem_call, kind: str, min_paths: int = 4,
+                    inline=None) -> None:
+    """FOLD ALL / ANY over a sequence of matchings, evaluated lazily from left to right:
+      ALL: the first element that does not match ends the evaluation with False; True when every element matched
+      ANY: the first element that matches ends the evaluation with True; False when none matched
+    The per-element matching (is_elem_call) is forked into a matching and a non-matching MatchingResult."""
+    from .. import util
+    ix = c.ix
+    mr = ix.cls('exactly_lib.type_val_prims.matcher.matching_result:MatchingResult')
+    hooks = ForkHooks(ix, loop_bound=2)
+    hooks.fork_on(is_elem_call, [
+        ('T', lambda: K(Record(mr, {'value': True, 'trace': Sym('trace')}))),
+        ('F', lambda: K(Record(mr, {'value': False, 'trace': Sym('trace')})))])
+    if inline:
+        hooks.inline_set = set(inline)
+    stop = 'F' if kind == 'ALL' else 'T'
+    paths = util.func_paths(ix, c.fo, fd, hooks)
+    n = 0
+    for p in paths:
+        labs = labels_of(p)
+        if labs:
+            n += 1
+        key = '%s/%s/%s' % (fd.key.split(':')[-1], kind, '-'.join(labs) or 'empty')
+        want = (stop not in labs) if kind == 'ALL' else (stop in labs)
+        lazy = stop not in labs or labs.index(stop) == len(labs) - 1
+        got = _bool_of_result(ix, p.val) if p.kind == 'return' else None
+        c.expect(lazy and got is want, rule, key,
+                 '%s over element results %s: %s, result %s (expected %s%s)' % (
+                     kind, labs, 'evaluation continues after the deciding element' if not lazy else 'lazy',
+                     got if got is not None else (util.describe(p.val) if p.kind == 'return' else p.kind), want,
+                     ', stopping at the first %s' % stop), fd.loc())
+    c.floor(rule, 'paths with element evaluations in ' + fd.key, n, min_paths)
+    loops = [x for x in walk_own(fd.node) if isinstance(x, ast.For)]
+    for lp in loops:
+        plain = isinstance(lp.iter, (ast.Name, ast.Attribute))
+        c.expect(plain, rule, fd.key.split(':')[-1] + '/left-to-right',
+                 'the operands are iterated as %s, not in their own order' % unparse(lp.iter), fd.loc())
+
+
+def _bool_of_result(ix: Index, v) -> Optional[bool]:
+    """the boolean a returned MatchingResult carries: a constant record, the element's own result, or
+    build_result(<const>) / MatchingResult(<const>, ...)"""
+    from .. import util
+    if isinstance(v, K) and isinstance(v.v, Record) and v.v.cls.name == 'MatchingResult':
+        x = v.v.args.get('value')
+        return x if isinstance(x, bool) else None
+    r = util.root_sym(v)
+    if isinstance(r, Sym) and r.origin and r.origin[0] == 'call':
+        key = r.origin[1]
+        args = list(r.origin[2])
+        kw = r.origin[3]
+        if key.endswith('build_result') or key.endswith(':MatchingResult'):
+            a = args[0] if args else kw.get('value')
+            if isinstance(a, K) and isinstance(a.v, bool):
+                return a.v
+    return None
